@@ -172,6 +172,7 @@ class FactoryOracle:
         self.rng_consumers = 0
         mon.proc_hooks.append(self.on_proc)
         mon.can_hooks.append(self.on_can)
+        mon.lost_wakeup_hooks.append(self.on_lost_wakeup)
         for p_ in self.env.mon_procs:
             self.on_proc(p_)
         mon.call_hooks.append(self.on_call)
@@ -286,6 +287,20 @@ class FactoryOracle:
             Ln = self.ledger_by_id.get(where)
             if Ln is not None:
                 Ln.inside[id(st.item)] = st
+
+    def on_lost_wakeup(self, sh, rec, why):
+        """a node's own request stays pending although the edge could serve it: seen from the node this is
+        stranded work (C10: 'takes it at that instant' / 'pushed at that instant')"""
+        node = getattr(rec.owner, "mon_owner", None)
+        L = self.ledgers.get(id(node))
+        if L is None:
+            return
+        if rec.side == "get":
+            self.mon.violation("C10", "available_item_not_taken", f"{L.type}:request-on-in-edge-pending-while-an-item-is-available-there",
+                               {"node": L.id, "edge": sh.label, "why": why})
+        else:
+            self.mon.violation("C10", "finished_item_not_pushed", f"{L.type}:request-on-out-edge-pending-while-the-edge-has-room",
+                               {"node": L.id, "edge": sh.label, "why": why})
 
     def on_proc(self, proc):
         node = getattr(proc, "mon_owner", None)
@@ -876,7 +891,7 @@ class FactoryOracle:
                             self._suspect(("wait", L.id, u.k), now, "C09", "nonblocking_waited", f"{L.type}:non-blocking-node-still-holds-a-finished-unit",
                                           {"node": L.id, "unit": getattr(u.x, "id", None), "ready": ready})
             # ---------------- C10 (c): finished unit, permitted out-edge with room (non-belt edges)
-            if blocking and L.type in ("machine", "splitter", "combiner"):
+            if L.type in ("machine", "splitter", "combiner"):
                 outs = node.out_edges or []
                 for u in L.by_item.values():
                     if u.t_off is None or now < u.t_off:
